@@ -77,6 +77,20 @@ CLAIMS = {
    note="uniformity for depth > 3 rests on the structural argument (configuration is not part of any state the interpreter threads), not on enumeration.",
    technique="Lean 4 proof (structural: configuration outside the threaded state; symbolic execution of flag instructions and plugin prelude) + bounded-exhaustive behavioural table on the implementation",
    design="§5 C09"),
+ 'C11': dict(
+   text="Proved about the reference assembler (the documented encoding, shared with the disassembler model): the encoding of a program is the in-order concatenation of its instructions' encodings; decoding the encoding of well-formed instructions returns the same instructions (the bytecode determines the program, nothing dropped / duplicated / reordered); "
+        "PUSH selects PUSH0 iff 1 byte, PUSH1 iff 2-255, PUSH2 iff 256-65535 and rejects the empty value and >= 65536 bytes, and what it emits decodes as that push of exactly the value; table obligations (decide +kernel over tables regenerated from /repo's get_args / parse_next on this run): every op's compiler operand class equals the model's layout, every alias resolves. "
+        "Tie: abstract programs over the full instruction set (nesting <= 4, operand boundaries per kind) rendered in random combinations of all spelling variants (OP_/bare/every alias, case, brace vs END_, hoisted IF conditions, d/x/s prefixes, three comment styles, whitespace), variable sugar, multi-invocation macros, comptime ~ and ~! blocks must compile to the documented encoding, which the Lean decoder reads back as the same abstract program; unencodable sources must be rejected; all 256 values of every 1-byte operand exhaustively.",
+   note="STATED LIMIT: the tokenizer / parser is not modelled in Lean - no theorem quantifies over source texts; that half is differential testing against a proved-consistent reference. Known tokenizer quirks (whitespace collapse inside s\"...\", upper-casing of unquoted s-values, OP_<alias> rejected directly inside DEF bodies) are avoided by the renderer and noted in DESIGN.md.",
+   technique="Lean 4 proof (encode/decode inverse over 12 operand layouts, decide +kernel table obligations) + differential testing of the concrete-syntax front end",
+   design="§5 C11"),
+ 'C12': dict(
+   text="Proved about the disassembler model: decoding one instruction leaves a proper suffix of the input (progress, never backwards), so the fuel = length recursion is total; for every byte string that decodes, re-encoding the decoded sequence reproduces the identical bytes and every decoded field fits its layout; "
+        "table obligation (decide +kernel): every opcode's name and operand class measured on the implementation's decompiler on this run (bytes consumed on two probe patterns + line shape) equals the model's. "
+        "Tie: decompile_script under a 4 s watchdog, a 3 GiB address-space cap and a recording Tape (negative / backward reads) on every byte string of length <= 2 and sampled (quick) / all (thorough) length-3 strings compared with the model's listing by per-block digests, random / opcode-biased / mutated strings to 70 KiB, PUSH2 sizes around 2^15 and 2^16; compile(decompile(b)) == b for compiled C11 programs, operand sizes on both sides of 2^7, 2^8, 2^15, 2^16, all lock / witness builder outputs.",
+   note="the listing text itself (names, operand printing) is tied by comparison with the model's `listing`, not by a theorem; recompilation of the listing goes through the unmodelled parser.",
+   technique="Lean 4 proof (decoder progress and encode-after-decode identity, decide +kernel table obligations) + watchdog/recording-Tape oracle + exhaustive short-string digest comparison",
+   design="§5 C12"),
  'C10': dict(
    text="Lean theorems over all integers / all byte strings: bytesToInt (intToBytes n) = some n, decoding total exactly on non-empty strings, decoded range, "
         "top bit of the encoding = sign, and minimality of the encoding (no shorter string decodes to n). The model is tied to int_to_bytes / bytes_to_int / "
